@@ -62,6 +62,39 @@ func init() {
 			o.Lean.WriteString("def " + x.lean + "WatchArg : String := " + LeanStr(watchArg) + "\n\n")
 		}
 
+		// the periodic executed-check: which slice the sweep ranges over, its per-member test, and what the watch loop
+		// hands to it
+		for _, x := range []struct {
+			f    *ast.File
+			lean string
+		}{{evm, "evm"}, {sub, "sub"}} {
+			rangeOver, memberTest, tickArg := "", "", ""
+			Walk(FindFunc(x.f, "Executor", "areProposalsExecuted"), func(n ast.Node) bool {
+				if rs, ok := n.(*ast.RangeStmt); ok && rangeOver == "" {
+					rangeOver = Src(rs.X)
+					for _, st := range rs.Body.List {
+						if is, ok := st.(*ast.IfStmt); ok && memberTest == "" {
+							memberTest = Src(is.Cond) + " => " + Src(is.Body)
+						}
+					}
+				}
+				return true
+			})
+			Walk(FindFunc(x.f, "Executor", "watchExecution"), func(n ast.Node) bool {
+				if c, ok := n.(*ast.CallExpr); ok && Src(c.Fun) == "e.areProposalsExecuted" && len(c.Args) == 1 {
+					tickArg = Src(c.Args[0])
+				}
+				return true
+			})
+			o.Facts[x.lean+"_tick_range"] = rangeOver
+			o.Facts[x.lean+"_tick_member_test"] = memberTest
+			o.Facts[x.lean+"_tick_arg"] = tickArg
+			o.Lean.WriteString("/-- " + x.lean + " `areProposalsExecuted`: ranged slice, per-member test; argument passed by the watch loop -/\n")
+			o.Lean.WriteString("def " + x.lean + "TickRange : String := " + LeanStr(rangeOver) + "\n")
+			o.Lean.WriteString("def " + x.lean + "TickMemberTest : String := " + LeanStr(memberTest) + "\n")
+			o.Lean.WriteString("def " + x.lean + "TickArg : String := " + LeanStr(tickArg) + "\n\n")
+		}
+
 		btc := o.ParseFile("chains/btc/executor/executor.go")
 		cond, ok := "false", false
 		if c := c3IfWithBody(FindFunc(btc, "Executor", "isExecuted"), "return false, nil"); c != nil {
